@@ -27,7 +27,7 @@ ID = 'C09'
 MODULE = 'SshAudit.Props.C09'
 NAMESPACE = 'SshAudit.C09'
 THEOREMS = ['recv_spec', 'ensureReadAux_spec', 'ensureRead_spec', 'readPacket_no_type_error', 'getBannerAux_spec', 'ensureRead_ok', 'ensureRead_fail',
-            'readPacket_cost', 'handshake_cost', 'malformed_handshake_no_report', 'handshake_ok_sound', 'probe_misbehaviour_contained', 'probe_exception_is_none', 'readList_prefix', 'kexinit_prefix_rejected']
+            'readPacket_cost', 'handshake_cost', 'malformed_handshake_no_report', 'handshake_ok_sound', 'probe_misbehaviour_contained', 'probe_exception_is_none', 'readList_prefix', 'kexinit_prefix_rejected', 'readList_strict', 'kexParse_accepts_only_complete']
 TECHNIQUE = 'Lean 4 theorems (induction over arbitrary finite receive-event lists: stall and recv-call bounds, exception taxonomy of the packet reader, handshake classification ⇒ exit status) + event-level and byte-level fault-injection correspondence with audit()/main()'
 LEVEL_TEXT = ('The receive side of the socket class is modelled over arbitrary finite event lists (any bytes, any segmentation, stalls, resets, close) and it is proved by induction that every read loop stops at the first '
               'stall, that the handshake waits for at most two timeouts (one unless the identification line came without its line ending) and makes at most (#events + 2) recv calls, that the packet reader can only leave through the two framing exits, and that every handshake class but "ok" '
@@ -128,6 +128,43 @@ def run_scripted(events, extra_args=('-2',)):
     return code, buf.getvalue(), first
 
 
+def strict_kexinit_ok(payload):
+    """independent of the tool and of the model: is this payload a complete KEXINIT (type byte, cookie, ten name-lists that fit, flag, reserved word)?"""
+    if not payload or payload[0] != 20:
+        return False
+    p = 17
+    for _ in range(10):
+        if p + 4 > len(payload):
+            return False
+        n = struct.unpack('>I', payload[p:p + 4])[0]
+        if p + 4 + n > len(payload):
+            return False
+        p += 4 + n
+    return p + 5 <= len(payload)
+
+
+def first_payload(events):
+    """the payload of the first binary packet the scripted peer sends after its identification line (None if it cannot be cut out)"""
+    data = b''
+    for ev in events:
+        if isinstance(ev, str):
+            break
+        data += ev
+    while True:
+        i = data.find(b'\n')
+        if i < 0:
+            return None
+        line, data = data[:i + 1], data[i + 1:]
+        if line.startswith(b'SSH-'):
+            break
+    if len(data) < 5:
+        return None
+    plen, pad = struct.unpack('>IB', data[:5])
+    if plen < pad + 1 or len(data) < 4 + plen:
+        return None
+    return data[5:4 + plen - pad]
+
+
 def classify(code, out):
     if 'Traceback' in out and "Failed to parse server's kex" not in out:
         return 'TRACEBACK'
@@ -200,6 +237,22 @@ def gen_event_scripts(ctx):
     for k in range(1, len(banner)):
         scripts.append(([banner[:k], banner[k:] + pktb], ['segmented-banner']))
         scripts.append(([banner[:k], 't'], ['segmented-banner', 'unterminated-banner']))
+    # the identification string is rated before the handshake breaks (SSH-1.x, non-printable characters): the status must still be 1
+    for bv in (b'SSH-1.99-OpenSSH_3.9p1\r\n', b'SSH-1.5-Cisco-1.25\n', b'SSH-2.0-Open\xc3\xa9SSH_8.0\r\n', b'SSH-2.0-X\x07Y\r\n', b'SSH-1.99-\xff\xfe\r\n'):
+        for tail in ([], ['t'], [pktb[:9]], [pktb[:9], 'e'], [fn.pkt(b'\x15' + good_kex()[1:])], [fn.pkt(good_kex()[:40])]):
+            scripts.append(([bv] + tail, ['banner-variant']))
+    # every name-list length field set to len+1 … len+5, 0, len-1, huge (the tail fields are where a lenient reader would be fooled)
+    gk = good_kex()
+    pos, offs = 17, []
+    for _ in range(10):
+        n_ = struct.unpack('>I', gk[pos:pos + 4])[0]
+        offs.append((pos, n_))
+        pos += 4 + n_
+    for o_, n_ in offs:
+        for v_ in (n_ + 1, n_ + 2, n_ + 3, n_ + 4, n_ + 5, 0, max(0, n_ - 1), 0xffffffff):
+            pk = bytearray(gk)
+            pk[o_:o_ + 4] = struct.pack('>I', v_)
+            scripts.append(([banner, fn.pkt(bytes(pk))], ['lenfield-systematic']))
     step = 1 if ctx.tier == 'thorough' else 3
     for k in range(0, len(pktb), step):
         scripts.append(([banner, pktb[:k]] if k else [banner], ['truncate-packet']))
@@ -316,6 +369,10 @@ def run(ctx):
             fail('malformed_handshake_reported', inp, {'exit': code, 'class': cls, 'stdout': out[:300]}, 'status 1 and no algorithm report')
         elif cls == 'ok' and code not in (0, 2, 3):
             fail('wellformed_handshake_no_report', inp, {'exit': code}, 'a report and status 0/2/3')
+        if cls == 'ok':
+            pl = first_payload(events)
+            if pl is not None and not strict_kexinit_ok(pl):
+                fail('malformed_kexinit_reported', inp, {'exit': code, 'class': cls, 'stdout': out[:300]}, 'the key-exchange-init packet is incomplete (a field overruns the payload): status 1 and no algorithm report')
         if sock.stalls > 2:
             fail('more_than_two_stalls_waited_for', inp, {'stalls': sock.stalls}, '<= 2 on one connection (one for an unterminated identification line, one for the packet after it)')
         lines.append('session.handshake ' + ev_tokens(events))
@@ -361,6 +418,8 @@ def replay(obj):
         print('exit', code, 'class', cls, 'recv calls', sock.recvs, 'stalls', sock.stalls)
         print(out[-600:])
         bad = cls == 'TRACEBACK' or code not in (0, 1, 2, 3) or (cls != 'ok' and code != 1) or sock.stalls > 2
+        pl = first_payload(events)
+        bad = bad or (cls == 'ok' and pl is not None and not strict_kexinit_ok(pl))
         return 1 if bad else 0
     print(json.dumps(f, indent=1)[:1500])
     return 0
